@@ -123,6 +123,8 @@ struct AggQ {
     by: Vec<&'static str>,
     per: Option<(&'static str, Option<&'static str>)>,
     limit: Option<usize>,
+    /// ORDER BY <field of the BY list> [DESC]
+    order: Option<(&'static str, bool)>,
     filter_class: &'static str,
 }
 
@@ -284,7 +286,7 @@ fn build_queries(tier: &str) -> (Vec<String>, Vec<AggQ>) {
         if let Some(l) = limit {
             t.push_str(&format!(" LIMIT {l}"));
         }
-        aggs.push(AggQ { text: t.clone(), sel: fi, metrics: ms, by, per, limit, filter_class: fclass });
+        aggs.push(AggQ { text: t.clone(), sel: fi, metrics: ms, by, per, limit, order: None, filter_class: fclass });
         texts.push(t);
     };
     for m in &metrics {
@@ -324,6 +326,18 @@ fn build_queries(tier: &str) -> (Vec<String>, Vec<AggQ>) {
             }
         }
     }
+    // grouped aggregates with ORDER BY a group field and a LIMIT smaller than the number of groups:
+    // every partial (shard, memtable, segment) must still contribute to the groups that survive
+    for by in [vec!["e"], vec!["s"], vec!["e", "b"]] {
+        for desc in [false, true] {
+            for l in [1usize, 2] {
+                let ms = vec![Metric::Count, Metric::Max("k")];
+                let t = format!("QUERY g {} BY {} ORDER BY {}{} LIMIT {l}", ms.iter().map(|m| m.text()).collect::<Vec<_>>().join(", "), by.join(", "), by[0], if desc { " DESC" } else { "" });
+                aggs.push(AggQ { text: t.clone(), sel: 0, metrics: ms, by: by.clone(), per: None, limit: Some(l), order: Some((by[0], desc)), filter_class: "no filter" });
+                texts.push(t);
+            }
+        }
+    }
     (texts, aggs)
 }
 
@@ -338,7 +352,7 @@ pub fn check(tier: &str) -> i32 {
         }
         let a = &aggs[qi - nsel];
         let sel = &reps[a.sel];
-        let class0 = format!("{} {}{}{} [{}]", a.metrics.iter().map(|m| m.class()).collect::<Vec<_>>().join("+"), if a.by.is_empty() { "" } else { "BY " }, a.by.join(","), a.per.map(|p| format!(" PER {}{}", p.0, if p.1.is_some() { " USING d" } else { "" })).unwrap_or_default(), a.filter_class);
+        let class0 = format!("{}{} {}{}{} [{}]", if a.order.is_some() { "ORDER BY + LIMIT: " } else { "" }, a.metrics.iter().map(|m| m.class()).collect::<Vec<_>>().join("+"), if a.by.is_empty() { "" } else { "BY " }, a.by.join(","), a.per.map(|p| format!(" PER {}{}", p.0, if p.1.is_some() { " USING d" } else { "" })).unwrap_or_default(), a.filter_class);
         if rep.failure.is_some() || rep.status != 200 || sel.status != 200 {
             return Judged { answer: Some(format!("status {}", rep.status)), verdict: Err(format!("status {} {} (selection status {})", rep.status, rep.message, sel.status)), class: format!("{class0}: error reply"), nontrivial: true };
         }
@@ -397,6 +411,21 @@ pub fn check(tier: &str) -> i32 {
             let missing: Vec<&Vec<String>> = groups.keys().filter(|k| !got_keys.contains(k)).take(3).collect();
             errs.push(format!("{} groups reported, {} expected ({} selected events form {} groups{}); e.g. missing {missing:?}", rep.rows.len(), expected_groups, sel.rows.len(), groups.len(), a.limit.map(|l| format!(", LIMIT {l}")).unwrap_or_default()));
         }
+        if let (Some((_, desc)), Some(l)) = (a.order, a.limit) {
+            // the reported groups are the first l of the full group list ordered by the first BY field
+            let mut firsts: Vec<String> = groups.keys().map(|k| k[0].clone()).collect();
+            firsts.sort();
+            firsts.dedup();
+            if desc {
+                firsts.reverse();
+            }
+            let allowed: Vec<String> = firsts.into_iter().take(l).collect();
+            for k in &got_keys {
+                if !allowed.contains(&k[0]) && groups.keys().map(|g| &g[0]).collect::<std::collections::BTreeSet<_>>().len() > l {
+                    errs.push(format!("group {k:?} reported, but ORDER BY {} LIMIT {l} selects only {allowed:?}", if desc { "DESC" } else { "ASC" }));
+                }
+            }
+        }
         canon.sort();
         let _ = rows;
         Judged {
@@ -426,7 +455,7 @@ pub fn check(tier: &str) -> i32 {
         layouts,
         queries: texts.clone(),
         judge: &judge,
-        rule: "every metric (COUNT, COUNT f, COUNT UNIQUE f, TOTAL, AVG, MIN, MAX over int/float/string fields) x every BY list out of {-, b, e, o, s, (b,e), (e,o)}; metric core x PER {HOUR..YEAR} x {USING d, timestamp} x BY {-, b}; metric core x {WHERE, FOR, SINCE USING, FOR+WHERE} x BY {-, e}; LIMIT {1,2} x BY lists; on data of two event types (so that a type leak is visible) with duplicate group keys, a nullable group field and instants across hour/day/week/month boundaries; oracle = fold over the rows the same storage state returns for the query without the aggregate clause; distinct_nontrivial = (config, data set, aggregate query) with at least one group".into(),
+        rule: "every metric (COUNT, COUNT f, COUNT UNIQUE f, TOTAL, AVG, MIN, MAX over int/float/string fields) x every BY list out of {-, b, e, o, s, (b,e), (e,o)}; metric core x PER {HOUR..YEAR} x {USING d, timestamp} x BY {-, b}; metric core x {WHERE, FOR, SINCE USING, FOR+WHERE} x BY {-, e}; LIMIT {1,2} x BY lists; COUNT+MAX x BY {e, s, (e,b)} x ORDER BY the first group field ASC/DESC x LIMIT {1,2}; on data of two event types (so that a type leak is visible) with duplicate group keys, a nullable group field and instants across hour/day/week/month boundaries; oracle = fold over the rows the same storage state returns for the query without the aggregate clause; distinct_nontrivial = (config, data set, aggregate query) with at least one group".into(),
         assumptions: vec!["calendar buckets: UTC, week starts Monday (as configured)".into(), "group key cells are compared by their string rendering; floats with relative tolerance 1e-9".into()],
         describe: &|_| "aggregate reply differs from a fold over the system's own selection (exact cases in known/C09.*.json)".to_string(),
         extra: json!({"aggregate_queries": aggs.len()}),
